@@ -263,7 +263,12 @@ def classify_dilute(c, solute, conc, solvent):
     t = R.per(solvent, num) if solvent == solute else 0.0
     b = R.per(solvent, den)
     rel = (value - c0) / c0
-    relq = 4 * cq / value + 1e-9 + K * cf.q * 4 / max(c.contents[solute], cf.q)
+    # how well the container's own concentration is known (the zone in which no-op, refusal and a minute dilution are all right):
+    # the stated digits, half a stored digit of the solute (its amount was rounded once - a whole digit hides a 1 % dilution of
+    # 10 fmol), a stored digit of everything in the denominator, and of the stored volume per litre (get_concentration reads it)
+    den_digits = sum(abs(R.stored_quantum_in(s_, den)) for s_ in c.contents) / bottom
+    vol_digit = cf.q / c.volume if den == 'L' and c.volume > 0 else 0.0
+    relq = 4 * cq / value + 1e-9 + 0.55 * cf.q / max(c.contents[solute], cf.q) + K * (den_digits + vol_digit)
     if rel > relq:
         return 'infeasible', 'above_current', 0.0, (value, num, den)
     if rel > -relq:
@@ -607,7 +612,7 @@ class HPlateObserver(Handler):
         unit = a.get('unit')
         subst = a.get('substance')
         if which == 'get_volume':
-            unit = unit if unit is not None else 'uL'
+            unit = unit if unit is not None else cf.volume_display_unit      # (the configured unit, like get_volumes: fix 2ef3f96)
         elif which == 'get_volumes':
             unit = unit if unit is not None else cf.volume_display_unit
         else:
@@ -630,12 +635,21 @@ class HPlateObserver(Handler):
             if not all(isinstance(s, pp.Substance) for s in only):
                 return
         if which == 'get_moles' and b != 'mol':
+            # moles asked for in a unit of another dimension: refused (ValueError), never answered in that dimension
+            M.count('OBS.get_moles_wrong_kind_of_unit')
+            if exc is None and any(R.measure(w_.contents, b, only) > 0 for _, w_ in wells):
+                M.violate(['C10', 'C06', 'C18'], 'OBS', f'C10:moles_answered_in_a_unit_that_is_not_moles:{b}',
+                          {'unit': unit, 'got': repr(result)[:120]})
+            elif exc is not None and not isinstance(exc, ValueError):
+                M.violate(['C10'], 'OBS', f'C10:{which}_raised:{type(exc).__name__}', {'unit': unit, 'exc': repr(exc)[:200]})
             return
-        if (which == 'get_volume' or (which == 'get_volumes' and only is None)) and b != 'L':
+        if which in ('get_volume', 'get_volumes') and b != 'L':
             M.count('OBS.get_volume_wrong_kind_of_unit')
-            if exc is None and any(R.measure(w_.contents, 'L') > 0 for _, w_ in wells):
+            if exc is None and any(R.measure(w_.contents, b if only is not None else 'L', only) > 0 for _, w_ in wells):
                 M.violate(['C10', 'C06', 'C18'], 'OBS', f'C10:volume_answered_in_a_unit_that_is_not_a_volume:{b}:{which}',
                           {'unit': unit, 'got': repr(result)[:120]})
+            elif exc is not None and not isinstance(exc, ValueError):
+                M.violate(['C10'], 'OBS', f'C10:{which}_raised:{type(exc).__name__}', {'unit': unit, 'exc': repr(exc)[:200]})
             return
         if exc is not None:
             M.violate(['C10', 'C18'], 'OBS', f'C10:{which}_raised:{type(exc).__name__}',
